@@ -25,6 +25,11 @@ claims = {
          "(table, '=' rule, spelling normalisation), rxGarbleFlag against garble's own FlagSet, and on SSA that the go command ends with the user's flags and packages in order and unmodified. "
          "Decides these agreements, not the acceptance of any concrete command line.",
          "table-vs-table and site-vs-site agreement over go/types + go/ssa, including the toolchain's own cmd/go source", "4 C20"),
+ "C16": ("Exhaustive abstract interpretation of the SSA of hashWithCustomSalt and its byte helpers: all 64 first base64 symbols x 3 name classes x 256 length bytes, later cells as byte sets with "
+         "pointwise loop summarisation (cross-position accesses are undecided, never a pass): length 6..12 within a fully encoded buffer, [A-Za-z_][A-Za-z0-9_]*, export status preserved; "
+         "plus purity (globals, external calls, hasher protocol, result copied) and the closed set of callers. Axioms: SHA-256 bytes arbitrary, base64 writes alphabet symbols. "
+         "Decides well-formedness, export preservation and purity for all inputs; does not decide collision freedom or keyword clashes.",
+         "abstract interpretation (byte-set domain, exhaustive case split) of go/ssa plus global/effect enumeration", "4 C16"),
 }
 
 checks = []
